@@ -55,6 +55,8 @@ pub fn report(id: usize, prop: &str, ok: bool, detail: String) {
 SHAPES = [
     ("{n}", "i64", "{n}", "{v}"),
     ("mut {n}", "i64", "{n}", "{v}"),
+    ("ref {n}", "i64", "*{n}", "{v}"),
+    ("ref mut {n}", "i64", "*{n}", "{v}"),
     ("({n}, _)", "(i64, i64)", "{n}", "({v}, 0)"),
     ("({n}a, {n}b)", "(i64, i64)", "{n}a * 100 + {n}b", "({v}, {v} + 1)"),
     ("W({n})", "W", "{n}", "W({v})"),
